@@ -32,8 +32,28 @@ def check_split_combine(facts, rep):
             last = e.name.split('::')[-1]
             if last == 'map' and e.args and strip(e.args[0])[0] == 'agg':
                 order = [x[2] if x[0] == 'loopvar' else (x[1][0][1] if x[0] == 'mref' else None) for x in strip(e.args[0])[2]]
+            if last == 'map' and e.args and strip(e.args[0])[0] == 'loopvar' and isinstance(strip(e.args[0])[2], int):
+                # one array local `blocks` returned as it is: position p of the result is blocks[p]
+                order = [('arr', strip(e.args[0])[2], i_) for i_ in range(4)]
             if last == 'push' and len(e.args) == 4 and e.args[0][0] == 'mref' and e.args[0][1][0][0] == 'local':
                 loc = e.args[0][1][0][1]
+                pth = e.args[0][1][1]
+                if pth:
+                    # blocks[2 * bi + bj]: a constant index once the path has fixed bi and bj
+                    def cfold(x):
+                        x = strip(x)
+                        if x[0] == 'const' and isinstance(x[1], int):
+                            return x[1]
+                        if x[0] == 'field' and x[2] == '0' and x[1][0] == 'bin' and x[1][1] in ('AddWithOverflow', 'MulWithOverflow', 'SubWithOverflow'):
+                            a_, b_ = cfold(x[1][2]), cfold(x[1][3])
+                            if a_ is None or b_ is None:
+                                return None
+                            return {'A': a_ + b_, 'M': a_ * b_, 'S': a_ - b_}[x[1][1][0]]
+                        return None
+                    ci = cfold(pth[0][1]) if (len(pth) == 1 and pth[0][0] == 'idx') else None
+                    if ci is None:
+                        continue
+                    loc = ('arr', loc, ci)
                 conds = {}
                 for b_ in p.branches():
                     s = sk(b_.term)
@@ -64,7 +84,7 @@ def check_split_combine(facts, rep):
     inst = 'SpMat::divide4|block p = 2*[row >= k] + [col >= l], offsets subtracted accordingly'
     problems = []
     if not order or len(order) != 4 or set(order) != set(table):
-        problems.append('cannot relate the pushed blocks %s to the returned array %s' % (sorted(table), order))
+        problems.append('cannot relate the pushed blocks %s to the returned array %s' % (sorted(table, key=str), order))
     else:
         for pos, loc in enumerate(order):
             rin, cin, ro, co = table[loc]
